@@ -57,9 +57,9 @@ func (propC04) ID() string { return "C04" }
 
 func (propC04) Cases(tier string) int {
 	if tier == "thorough" {
-		return 1500000
+		return 12000000
 	}
-	return 40000
+	return 400000
 }
 
 func (propC04) Run(ctx *Ctx, index int) {
@@ -99,9 +99,9 @@ func ctorCases() int { return len(ctorForms) * (ctorMaxN + 1) }
 
 func (propC05) Cases(tier string) int {
 	if tier == "thorough" {
-		return ctorCases() + 1500000
+		return ctorCases() + 10000000
 	}
-	return ctorCases() + 30000
+	return ctorCases() + 300000
 }
 
 func (propC05) Run(ctx *Ctx, index int) {
